@@ -23,7 +23,7 @@ func init() {
 			"files with the leading magic skipped are read through the lexer only (NewReader has no SkipMagic)",
 			"header library without OverrideLibrary is only required to end with the caller's string",
 		},
-		batches: map[string]int{"quick": 48, "thorough": 400},
+		batches: map[string]int{"quick": 48, "thorough": 96},
 		checks:  map[string]int{"quick": 150, "thorough": 250},
 	}})
 }
